@@ -33,7 +33,7 @@ def plans(quick):
              walk_len=14, sim=dict(num=800, depth=14)),
     ] + [
         dict(family=f, checks=[dict(steps=5, slots=2), dict(steps=7, slots=2, force=False, fail=False, count=True)],
-             gen=dict(steps=(4 if f == 'chain' else 5), slots=1), walks=300, walk_len=16, sim=dict(num=1500, depth=16))
+             gen=dict(steps=(4 if f == 'chain' else 5), slots=1), walks=300, walk_len=16, sim=dict(num=600, depth=16))
         for f in ('chain', 'mounts', 'diamond', 'levels', 'wiring')
     ]
 
